@@ -63,6 +63,16 @@ CLAIMED.update({
          "Trusted: TLC, Json module, futures executor. The scripted source is always Ready (Pending belongs to the executor). The defect this check found (one read per call) was repaired in /repo (fix commit, see known_findings.txt); no known finding remains for C20.", "6 C20"),
 })
 
+# additions of later rounds (kept apart from the original level texts)
+EXTRA = {
+ "C05": " Additionally MC_ReaderBuf (WithErrors) lets the source fail once at any point of any read schedule of 9 documents and checks ErrSurfaces (the read error surfaces in that very call, never swallowed), and trace mode LB follows the windowed reader ReaderBuf through runs with injected source errors (statistic).",
+ "C06": " The containment clause covers the header of unknown-size children (a header reaching past a known-size ancestor is the oversize error).",
+ "C09": " Driver widths writes elements of 2^(7w)-2 .. 2^(7w) bytes with explicit width w (relation WidthExact: honoured exactly or rejected, never widened); the present driver also gives child masters of Full items as Start..End runs, puts size options on End calls (they mean nothing there) and writes one Full item with the unknown-size option (relation FullUnknown: rejected as a size error, or unknown size affected size fields only).",
+ "C10": " Driver flush_open calls flush() / into_inner() while known- and unknown-size masters are open and continues with a second document; the monitor also requires (hook) that no master is open after a successful flush().",
+ "C11": " The paths driver additionally enumerates, per specification, every chain spelled out by a declared path x every assignment of unknown sizes x every tag, so that the reader-side clause (judged against the chain that remains after closing unknown-size masters) is exercised systematically; a panic of the matcher is recorded as a verdict.",
+ "C19": " Failing calls include Full items whose children are End / Start items that would end the item itself or masters opened before it, or stay open; End calls carrying size options; Full items with the unknown-size option (marked optional: if a writer accepts them the case says nothing about C19).",
+}
+
 NA_REASON = "check not built yet (work in progress in this round)"
 
 def main():
@@ -72,6 +82,7 @@ def main():
         if pid not in CLAIMED:
             continue
         tech, text, note, ref = CLAIMED[pid]
+        text = text + EXTRA.get(pid, "")
         checks.append({
             "property_id": pid,
             "quick_cmd": "./check %s --tier quick" % pid,
